@@ -1,6 +1,7 @@
 (* C07, target-cursor mode, filters with New and Undo and any stop block (C07_seamless_target_nu of
    Spec/C07_More_Spec.v): the run shapes with the pass-through resolver (through_prefix) and the hub's answer "through
-   the cursor" (hub_through_shape), under target_on_chain. *)
+   the cursor" (hub_through_shape_gen): under target_on_chain, or for a cursor with its LIB on canon also when the hub stores
+   the cursor block off its chain (Proofs/C07_TargetOff.v). *)
 From Coq Require Import Sorted.
 From BV Require Import Base.Prelude Model.Block Model.ForkDB Model.Forkable Model.ForkableLookups Model.Burst Model.Hub
   Model.CursorResolver Model.Joining
@@ -14,7 +15,7 @@ From BV Require Import Base.Prelude Model.Block Model.ForkDB Model.Forkable Mode
   Proofs.C07_File Proofs.C07_Live
   Proofs.C07_ComposeStack Proofs.C07_ComposeHub Proofs.C07_ComposeRun Proofs.C07_Compose
   Proofs.C07_ComposeCursor Proofs.C07_ComposeCursorLive Proofs.C07_ComposeCursorAll Proofs.C07_ComposeTarget
-  Proofs.C07_FilesFinal Proofs.C07_Raw Proofs.C07_Shapes Proofs.C07_Filters Proofs.C07_ChainFacts Proofs.C07_Delivery.
+  Proofs.C07_FilesFinal Proofs.C07_Raw Proofs.C07_Shapes Proofs.C07_Filters Proofs.C07_ChainFacts Proofs.C07_Delivery Proofs.C07_TargetOff.
 Local Open Scope N_scope.
 
 Section TgtRun.
@@ -48,7 +49,7 @@ Section TgtRun.
 
   Let merged := filter (fun b => bnum b <? merged_end) canon.
   Hypothesis Hbound : Forall (fun b => bnum b < file_bound) merged.
-  Hypothesis Hto : target_on_chain c w cu.
+  Hypothesis Hto : target_on_chain c w cu \/ cursor_lib_on canon cu B.
 
   Let res := stream_run c w ps merged_end merged forked.
   Let stopf := if j_stop c =? 0 then file_bound else j_stop c.
@@ -70,14 +71,34 @@ Section TgtRun.
   Let D_bot' : forall z r, D = z :: r -> bnum z <= start := dlv_bot c canon start merged_end Hchain Hstartblk.
 
   Lemma D_merged b : In b D -> In b merged.
-  Proof. intros H. apply (dlv_in c canon start merged_end b) in H. tauto. Qed.
+  Proof. clear Hto. intros H. apply (dlv_in c canon start merged_end b) in H. tauto. Qed.
 
-  (* a join in target-cursor mode hands over the retained chain from the joining block on *)
-  Lemma target_joins' : joins_good U c merged w.
+  Let Hmc : forall b, In b merged -> In b canon.
+  Proof. intros b Hb. unfold merged in Hb. apply filter_In in Hb as [Hb _]. exact Hb. Qed.
+
+  (* the hub answers "through the cursor" with the cursor block stored off its chain: only a cursor with its LIB on canon
+     gets there (target_on_chain excludes it), and the consumer that holds the file blocks Q ends on the hub's chain *)
+  Lemma tgt_off m V hd sg n burst Q bn :
+    h_ready (w_hub (world_after c m w)) = true ->
+    VState U first kept (h_f (w_hub (world_after c m w))) V ->
+    last_sent (h_f (w_hub (world_after c m w))) = Some hd ->
+    complete_segment (db (h_f (w_hub (world_after c m w)))) (bref hd) = Some (sg, true) ->
+    block_in (ri (cu_blk cu)) sg = false -> n <= rn (cu_blk cu) ->
+    blocks_through_cursor (h_f (w_hub (world_after c m w))) n cu = BOk burst ->
+    In bn canon -> bnum bn = n ->
+    (exists x, lnk x (Q ++ [bn])) -> Forall (fun y => In y U) Q ->
+    (forall z r, Q ++ [bn] = z :: r -> bnum z <= start) ->
+    exists J1 E, sfold (rev Q) burst = Some J1 /\ Rel U start (V ++ E) J1.
   Proof.
-    apply (target_joins_gen U c canon U_id U_uniq U_up HcU Hcl merged) with (cu := cu) (B := B);
-      [|exact HB | exact HBc | exact Hmode | exact Hcur | exact Hto].
-    intros b Hb. unfold merged in Hb. apply filter_In in Hb as [Hb _]. exact Hb.
+    intros Hrd HV Hls Eseg Hoff Hn Hb Hbnc Hbnn HlQ HQU Hbot.
+    destruct Hto as [Hon|(Lb & HLbc & HLb & Hle & Hun)].
+    - exfalso.
+      assert (Hh : hub_through_cursor (h_f (w_hub (world_after c m w))) n cu = BOk burst).
+      { unfold hub_through_cursor. replace (rn (cu_blk cu) <? n) with false by (symmetry; apply N.ltb_ge; exact Hn). exact Hb. }
+      rewrite (through_proper_on_chain U first kept _ V n cu burst hd sg HV (fun hd sg H1 H2 H3 => Hon m hd sg Hrd H1 H2 H3) Hn Hh Hls Eseg) in Hoff.
+      discriminate.
+    - exact (off_rel U first kept U_id U_uniq U_up canon HcU Hcl start cu B Lb HB HBc HLb HLbc Hle Hun _ V hd sg n burst Q bn
+               HV Hls Eseg Hoff Hn Hb Hbnc Hbnn HlQ HQU Hbot).
   Qed.
 
   (* the pass-through resolver hands over a beginning D1 of the file blocks *)
@@ -86,6 +107,7 @@ Section TgtRun.
     run_files c (run_start c w) merged_end merged forked = (map fev D1, fend) /\
     (fend = fend0 \/ fend = JOther).
   Proof.
+    clear Hto.
     assert (Hcons : forall b, In b D -> bid b = ri (cu_blk cu) -> bnum b = rn (cu_blk cu)).
     { intros b Hb Eb. destruct (bref_eq _ _ HB) as [EBi EBn].
       assert (Hbc : In b canon).
@@ -125,9 +147,18 @@ Section TgtRun.
       destruct (h_ready (w_hub w)) eqn:Hrd; cbn [negb] in Hlt; [|discriminate].
       destruct HW as [Hok Hrest].
       destruct (vstate_of_hub U first kept U_id U_uniq U_up D_decl (w_hub w) Hok Hrd) as [V HV].
-      destruct (hub_through_shape U first kept U_id U_uniq U_up (h_f (w_hub w)) V start cu burst HV
-                  (fun hd sg H1 H2 H3 => Hto 0%nat hd sg Hrd H1 H2 H3) Hlt)
-        as (hd & sg & pre & post & Hls & Eseg & Hgood & Hsg & Hpre & Hpost & Hevs & Hfirst & _).
+      destruct (hub_through_shape_gen U first kept U_id U_uniq U_up (h_f (w_hub w)) V start cu burst HV Hlt)
+        as (hd & sg & Hls & Eseg & Hgood & [(Hle & Hoff & Hbt)|(_ & pre & post & Hsg & Hpre & Hpost & Hevs & Hfirst & _)]).
+      { (* the cursor block is stored off the hub's chain *)
+        destruct Hstartblk as (b0 & Hb0c & Hb0n).
+        destruct (tgt_off 0%nat V hd sg start burst [] b0 Hrd HV Hls Eseg Hoff Hle Hbt Hb0c Hb0n) as (J1 & E & Hfold & HR).
+        - exists (bparent b0). cbn [app lnk]. auto.
+        - constructor.
+        - intros z r Ez. cbn [app] in Ez. injection Ez as <- _. lia.
+        - destruct (cursor_live_raw U c canon start U_id U_uniq U_up D_decl HcU Hcl Hsl w V E [] burst J1 k
+                      (conj Hrd (conj HV Hrest)) Htip Hfold HR) as (J & HJ & Hfin).
+          exists (burst ++ pushed c k w), J. split; [exact HJ|]. left.
+          exists (w_rest (world_after c k w) = []). split; [exact Hro|]. intros HP. right. exact (Hfin HP). }
       assert (Hmap : map eblk burst = map seg_blk post) by (rewrite Hevs; apply map_eblk_snap).
       assert (Hnew : Forall (fun e => matches_new (estep e) = true) burst).
       { rewrite Hevs. apply Forall_forall. intros e He. apply in_map_iff in He as (q & <- & _).
@@ -175,12 +206,34 @@ Section TgtRun.
       { intros b Hb. apply D_merged. rewrite EDD. apply in_or_app. left. exact Hb. }
       assert (Hbot1 : forall z r, Dpre ++ [bn] = z :: r -> bnum z <= start).
       { intros z r Ez. apply (D_bot' z (r ++ D' ++ D2)). rewrite EDD, Ez. reflexivity. }
-      destruct (join_raw U c canon start U_id U_uniq U_up D_decl HcU Hcl Hsl merged HmU (world_after c m w) Dpre bn lowest burst k
-                  (wok_after U c U_id U_uniq U_up D_decl m w HW) (tip_after c canon w m Htip) (target_joins' m) Hl1 Hin1 Hbot1 Hj)
-        as (_ & J & HJ & _ & Hfin).
-      exists (map fev Dpre ++ burst ++ pushed c k (world_after c m w)), J. split; [exact HJ|]. left.
-      exists (w_rest (world_after c k (world_after c m w)) = []). split; [exact Hro|].
-      intros HP. right. exact (Hfin HP).
+      set (wj := world_after c m w) in *.
+      pose proof (wok_after U c U_id U_uniq U_up D_decl m w HW) as HWj. fold wj in HWj.
+      assert (Hbn : In bn merged) by (apply Hin1; apply in_or_app; right; left; reflexivity).
+      destruct (join_try_target c wj lowest (fev bn) cu burst Hmode Hcur Hj) as (_ & Hrd & _).
+      destruct HWj as [Hokj Hrestj].
+      destruct (vstate_of_hub U first kept U_id U_uniq U_up D_decl (w_hub wj) Hokj Hrd) as [V HV].
+      destruct (target_join_at U c canon U_id U_uniq U_up HcU Hcl merged Hmc cu B HB HBc Hmode Hcur wj lowest bn burst V Hbn Hj HV)
+        as [(hd & sg & Hls & Eseg & Hle & Hoff & Hbt)|Hgood].
+      + (* the cursor block is stored off the hub's chain *)
+        assert (HDU : Forall (fun y => In y U) Dpre).
+        { apply Forall_forall. intros y Hy. apply HmU, Hin1. apply in_or_app. left. exact Hy. }
+        destruct (tgt_off m V hd sg (bnum bn) burst Dpre bn Hrd HV Hls Eseg Hoff Hle Hbt (Hmc bn Hbn) eq_refl Hl1 HDU Hbot1)
+          as (J1 & E & Hfold & HR).
+        destruct (files_raw U start merged HmU Dpre) as (Hfd & _ & _).
+        { destruct Hl1 as [x1 Hl1]. exists x1. eapply linked_prefix. exact Hl1. }
+        { intros b Hb. apply Hin1. apply in_or_app. left. exact Hb. }
+        { intros z r Ez. apply (Hbot1 z (r ++ [bn])). rewrite Ez. reflexivity. }
+        destruct (cursor_live_raw U c canon start U_id U_uniq U_up D_decl HcU Hcl Hsl wj V E (rev Dpre) burst J1 k
+                    (conj Hrd (conj HV Hrestj)) (tip_after c canon w m Htip) Hfold HR) as (J & HJ & Hfin).
+        exists (map fev Dpre ++ burst ++ pushed c k wj), J. split; [rewrite sfold_app, Hfd; exact HJ|]. left.
+        exists (w_rest (world_after c k wj) = []). split; [exact Hro|].
+        intros HP. right. exact (Hfin HP).
+      + destruct (join_raw_at U c canon start U_id U_uniq U_up D_decl HcU Hcl Hsl merged HmU wj V Dpre bn lowest burst k
+                    (conj Hokj Hrestj) (tip_after c canon w m Htip) Hrd HV Hgood Hl1 Hin1 Hbot1 Hj)
+          as (_ & J & HJ & _ & Hfin).
+        exists (map fev Dpre ++ burst ++ pushed c k wj), J. split; [exact HJ|]. left.
+        exists (w_rest (world_after c k wj) = []). split; [exact Hro|].
+        intros HP. right. exact (Hfin HP).
     - (* files only *)
       rewrite Hseen in Hfo'.
       assert (Hl1 : exists x, lnk x D1) by (exists x0; rewrite ED in HlD; eapply linked_prefix; exact HlD).
@@ -224,5 +277,35 @@ Proof.
   assert (HW : WOK U c w).
   { split; [|exact Hrest]. rewrite Hhub. apply (hub_ok_run U (j_first c) (j_kept c) Hwfb Hlok l Hl). }
   exact (tgt_nu U c w ps merged_end canon forked cu B start Hid Huniq Hup Hdecl Hchain Hincl Hstartblk eq_refl HW Htip Hmode Hcur Hnu
-           Hbundle HBc HB Hbound Hto).
+           Hbundle HBc HB Hbound (or_introl Hto)).
+Qed.
+
+(* without agreement hypothesis, for a cursor with its LIB on canon *)
+Lemma c07_seamless_target_nu_full_proof : C07_seamless_target_nu_full.
+Proof.
+  intros U c w ps merged_end canon forked cu B Hwfb Hlok [[l [Hl Hhub]] Hrest] Hchain Hincl merged Htip
+         Hmode Hcur Hnu Hbundle Hbound HBc HB Hlib res start Hstartblk.
+  assert (Hscope : disc_scope2_b U = true) by (unfold disc_scope2_b; rewrite Hwfb, Hlok; reflexivity).
+  pose proof (bridge_id U Hwfb) as Hid. pose proof (bridge_uniq U Hwfb) as Huniq. pose proof (bridge_up U Hwfb) as Hup.
+  pose proof (bridge2_decl_none U Hscope) as Hdecl.
+  assert (HW : WOK U c w).
+  { split; [|exact Hrest]. rewrite Hhub. apply (hub_ok_run U (j_first c) (j_kept c) Hwfb Hlok l Hl). }
+  exact (tgt_nu U c w ps merged_end canon forked cu B start Hid Huniq Hup Hdecl Hchain Hincl Hstartblk eq_refl HW Htip Hmode Hcur Hnu
+           Hbundle HBc HB Hbound (or_intror Hlib)).
+Qed.
+
+Lemma c07_seamless_target_full_proof : C07_seamless_target_full.
+Proof.
+  intros U c w ps merged_end canon forked cu B Hwfb Hlok Hhub Hchain Hincl merged Htip
+         Hmode Hcur Hfilter Hstop Hbundle Hbound HBc HB Hlib res start Hstartblk.
+  assert (Hnu : has_nu (j_filter c) (j_custom c) = true) by (unfold has_nu; rewrite Hfilter; reflexivity).
+  destruct (c07_seamless_target_nu_full_proof U c w ps merged_end canon forked cu B Hwfb Hlok Hhub Hchain Hincl Htip
+              Hmode Hcur Hnu Hbundle Hbound HBc HB Hlib Hstartblk) as (c' & Hc' & Hfin).
+  fold merged res in Hc', Hfin.
+  assert (Hall : filter is_nu (fst res) = fst res).
+  { destruct (c13_stream_output_proof c w ps merged_end merged forked (fst res) (snd res)) as [Hp _].
+    - apply surjective_pairing.
+    - apply C06_Lists.filter_all. eapply Forall_impl; [|exact Hp]. cbn beta. intros e He.
+      rewrite is_nu_nu_ev, <- (passes_nu c e Hfilter). exact He. }
+  rewrite Hall in Hc'. exists c'. split; [exact Hc' | exact Hfin].
 Qed.
